@@ -10,8 +10,9 @@ git -C /repo worktree add -f --detach "$WT" HEAD -q || exit 2
 export CARGO_NET_OFFLINE=true
 run_demo() {
   if [ -f "$SRC/demo.sh" ]; then
-    sed "s#/tmp/seed/$ID-out#$SRC#g; s#/tmp/seed/$ID#$WT#g" "$SRC/demo.sh" > "$WT/.demo.sh"
-    (cd "$WT" && sh ./.demo.sh "$WT")
+    # the scripts locate their files through dirname $0: keep the copy next to them
+    sed "s#/tmp/seed2*/$ID-out#$SRC#g; s#/tmp/seed2*/$ID#$WT#g" "$SRC/demo.sh" > "$SRC/.demo_confirm.sh"
+    (cd "$WT" && sh "$SRC/.demo_confirm.sh" "$WT"); rc=$?; rm -f "$SRC/.demo_confirm.sh"; return $rc
   elif [ "$ID" = C01 ]; then
     mkdir -p "$WT/tests" && cp "$SRC/demo_c01.rs" "$WT/tests/demo_c01.rs" && (cd "$WT" && cargo test --offline --target-dir "$WT/target" --test demo_c01); rc=$?; rm -rf "$WT/tests"; return $rc
   elif [ "$ID" = C10 ]; then
